@@ -71,6 +71,7 @@ class AuditResult:
 
 
 class Check:
+    tier = "quick"
     prop = ""
     level = "proof"
     title = ""
@@ -104,6 +105,13 @@ class Check:
         """Run the real code on the counterexample. Return dict(reproduced=bool, input=..., observed=..., required=...)
         or None when no concrete input can be built."""
         return None
+
+    def bounded_stand_in(self, tier, undecided: List[str]) -> List[dict]:
+        """Called only when some function left the interpreted subset (obligations undecided).  A bounded native
+        check of the real function with a stated bound; a failing input it finds is a violation with a replayed
+        input (a real failing run), a pass is reported as bounded and never counted as proved.
+        Returns [dict(name=..., reproduced=bool, input=..., observed=..., required=..., bound=...)]."""
+        return []
 
     def static_checks(self, repo: Repo) -> List[Tuple[str, bool, str]]:
         """Extra decided facts outside the interpreter (e.g. class-table invariants): (name, ok, detail)."""
@@ -445,6 +453,7 @@ def apply_canary(repo_root: str, c: Canary) -> Optional[Repo]:
 def run_check(check: Check, tier: str = "quick", seed: int = 0) -> int:
     t0 = time.time()
     prop = check.prop
+    check.tier = tier
     out_lines: List[str] = []
     exit_code = 0
     repo_root = os.environ.get("VERIF_REPO", "/repo")
@@ -578,6 +587,25 @@ def run_check(check: Check, tier: str = "quick", seed: int = 0) -> int:
         suffix = "" if (rep and rep.get("reproduced")) else " no-failing-input-found"
         out_lines.append(f"VIOLATION property={prop} replay={rpath} obligation={name}{suffix}")
         violations.append(dict(obligation=name, replay=rpath, reproduced=bool(rep and rep.get("reproduced"))))
+    # bounded stand-in for functions that left the interpreted subset
+    stand_in_report = []
+    if undecided:
+        try:
+            for r in check.bounded_stand_in(tier, undecided):
+                stand_in_report.append({k: (v if isinstance(v, (str, int, float, bool, type(None))) else repr(v)[:300])
+                                        for k, v in r.items()})
+                if r.get("reproduced"):
+                    nm = f"{prop}.bounded_stand_in.{r.get('name', 'native')}"
+                    fn = re.sub(r"[^A-Za-z0-9_.\[\]-]", "_", nm)[:150] + ".json"
+                    rpath = os.path.join(VERIF, "replays", prop, fn)
+                    with open(rpath, "w") as f:
+                        json.dump(dict(property=prop, obligation=nm, verdict="bounded native check of the real function found a "
+                                       "failing input (the function is outside the interpreted subset)", replay=r,
+                                       counter_model={}), f, indent=1, default=str)
+                    out_lines.append(f"VIOLATION property={prop} replay={rpath} obligation={nm}")
+                    violations.append(dict(obligation=nm, replay=rpath, reproduced=True))
+        except Exception as ex:
+            errors.append(f"bounded stand-in crashed: {type(ex).__name__}: {ex}")
     # canaries (A3): each rewrite of the current source must make an obligation fail
     canary_report = []
     for ci, c in enumerate(canaries):
@@ -685,6 +713,7 @@ def run_check(check: Check, tier: str = "quick", seed: int = 0) -> int:
         checker_errors=errors,
         canaries=canary_report,
         audits_bounded=audit_report,
+        bounded_stand_ins=stand_in_report,
         interpretation_drops=DROPPED_ALWAYS + sorted(dropped),
         engine_stats=stats,
         samples=samples,
